@@ -24,6 +24,7 @@ import (
 	"log"
 	"math/rand"
 	"os"
+	"os/exec"
 	"sort"
 	"strconv"
 	"strings"
@@ -606,6 +607,47 @@ func verifC15Case(line string) string {
 	return "e2e retried=1 " + r2.String() + " first=[" + strings.Replace(first, " ", ";", -1) + "]"
 }
 
+// Each scenario runs in a child process: a panic in any dispatcher goroutine kills the whole
+// process (that is what it does to a real dispatcher), and the parent reports it as the result of
+// that case instead of losing the rest of the shard.
+func TestVerifC15Child(t *testing.T) {
+	line := os.Getenv("VERIF_C15_CASE")
+	resf := os.Getenv("VERIF_C15_RES")
+	if line == "" || resf == "" {
+		t.Skip("not a child run")
+	}
+	log.SetOutput(ioutil.Discard)
+	ioutil.WriteFile(resf, []byte(verifC15Case(line)+"\n"), 0600)
+}
+
+func verifC15InChild(line string, resf string) string {
+	os.Remove(resf)
+	cmd := exec.Command(os.Args[0], "-test.run", "^TestVerifC15Child$", "-test.timeout", "0")
+	cmd.Env = append(os.Environ(), "VERIF_C15_CASE="+line, "VERIF_C15_RES="+resf)
+	var stderr bytes.Buffer
+	cmd.Stdout = &stderr
+	cmd.Stderr = &stderr
+	err := cmd.Run()
+	if buf, rerr := ioutil.ReadFile(resf); rerr == nil && len(buf) > 0 {
+		return strings.TrimRight(string(buf), "\n")
+	}
+	out := stderr.String()
+	switch {
+	case strings.Contains(out, "close of closed channel") && strings.Contains(out, "closeRunner"):
+		return "e2e crash=closeRunner-double-close"
+	case strings.Contains(out, "reportSSHConnected"):
+		return "e2e crash=reportSSHConnected-nil-worker"
+	}
+	first := ""
+	for _, l := range strings.Split(out, "\n") {
+		if strings.HasPrefix(l, "panic:") || strings.HasPrefix(l, "fatal error:") {
+			first = l
+			break
+		}
+	}
+	return strings.Replace(fmt.Sprintf("e2e crash=other:%v:%s", err, first), " ", "_", -1)
+}
+
 func TestVerifC15(t *testing.T) {
 	in, err := os.Open(os.Getenv("VERIF_CASES"))
 	if err != nil {
@@ -617,13 +659,19 @@ func TestVerifC15(t *testing.T) {
 		t.Fatal(err)
 	}
 	defer outf.Close()
-	log.SetOutput(ioutil.Discard)
+	resf := os.Getenv("VERIF_OUT") + ".child"
+	defer os.Remove(resf)
 	w := bufio.NewWriter(outf)
 	defer w.Flush()
 	sc := bufio.NewScanner(in)
 	sc.Buffer(make([]byte, 1<<20), 1<<26)
 	for sc.Scan() {
-		fmt.Fprintln(w, verifC15Case(sc.Text()))
+		line := sc.Text()
+		if !strings.HasPrefix(line, "e2e ") {
+			fmt.Fprintln(w, verifC15Case(line))
+		} else {
+			fmt.Fprintln(w, verifC15InChild(line, resf))
+		}
 		w.Flush()
 	}
 }
